@@ -88,7 +88,10 @@ def cases_(draw):
             'empty_rows': draw(st.integers(0, 9)) == 0,      # rows of a resource without fields: {}
             'late': draw(st.integers(0, n + 1)),
             'schedule': draw(st.lists(st.integers(0, 7), max_size=400)),
-            'two_resources': draw(st.booleans()), 'all_resources': draw(st.booleans())}
+            'two_resources': draw(st.booleans()), 'all_resources': draw(st.booleans()),
+            # some rows carry their fields in another insertion order (an upstream step popped and re-added a key);
+            # the first row carries a value bigger than a pipe buffer (64 KiB)
+            'key_order': draw(st.booleans()), 'blob': draw(st.integers(0, 7)) == 0}
 
 
 def cases(tier):
@@ -194,7 +197,16 @@ def run_under_scheduler(case, s, classes=None):
     exp = expected_rows(n, pred, late)
     classes = classes if classes is not None else []
     fields = [{'name': 'id', 'type': 'integer'}, {'name': 'v', 'type': 'integer'}, {'name': 'cnt', 'type': 'integer'}]
-    pkg = [{'name': 'res1', 'fields': fields, 'rows': [{'id': i, 'v': i, 'cnt': 0} for i in range(1, n + 1)]}]
+    src_rows = [{'id': i, 'v': i, 'cnt': 0} for i in range(1, n + 1)]
+    if case.get('key_order'):
+        src_rows = [r if r['id'] % 3 else {'cnt': r['cnt'], 'v': r['v'], 'id': r['id']} for r in src_rows]
+        classes.append('rows-with-different-key-order')
+    if case.get('blob') and n:
+        fields = fields + [{'name': 'blob', 'type': 'string'}]
+        for r, e in zip(src_rows, exp):
+            r['blob'] = e['blob'] = ('x' * 70000) if r['id'] == 1 else 'y'
+        classes.append('row-bigger-than-a-pipe-buffer')
+    pkg = [{'name': 'res1', 'fields': fields, 'rows': src_rows}]
     empty = case.get('empty_rows') and pred in ('none-given', 'all', 'none-selected')
     if empty:
         pkg = [{'name': 'res1', 'fields': [], 'rows': [{} for _ in range(n)]}]
